@@ -15,10 +15,10 @@ V = os.path.dirname(os.path.dirname(os.path.abspath(__file__)))
 M = [
     # ---- message.rs (C05/C06) ----
     ("msg_tag_order_le", "C05", "src/message.rs", "            if tag <= *last_tag {\n                return Err(Error::TagNotStrictlyIncreasing(tag));\n            }\n        }\n\n        self.tags.push(tag);", "            if tag < *last_tag {\n                return Err(Error::TagNotStrictlyIncreasing(tag));\n            }\n        }\n\n        self.tags.push(tag);", "break"),
-    ("msg_offset_gt_to_ge", "C05", "src/message.rs", "} else if offset > bytes_len as u32 {", "} else if offset >= bytes_len as u32 {", "break"),
+    ("msg_offset_gt_to_ge", "C05", "src/message.rs", "} else if offset > bytes_len as u32 {", "} else if offset >= bytes_len as u32 {", "harmless"),  # equivalent: offset == bytes_len is rejected by the later end_idx check anyway
     ("msg_align_check_dropped", "C05", "src/message.rs", "if offset % 4 != 0 {", "if offset % 2 != 0 {", "break"),
     ("msg_encode_offset_start", "C05", "src/message.rs", "let mut offset_sum = self.values[0].len();", "let mut offset_sum = self.values[0].len() + 4;", "break"),
-    ("msg_frame_len_be", "C05", "src/message.rs", "frame.write_u32::<LittleEndian>(encoded.len() as u32)?;", "frame.write_u32::<LittleEndian>((encoded.len() as u32).swap_bytes())?;", "break"),
+    ("msg_frame_len_counts_header", "C05", "src/message.rs", "frame.write_u32::<LittleEndian>(encoded.len() as u32)?;", "frame.write_u32::<LittleEndian>(encoded.len() as u32 + 12)?;", "break"),
     ("msg_single_tag_min_len", "C06", "src/message.rs", "if bytes.len() < 8 {\n            return Err(Error::MessageTooShort);", "if bytes.len() < 4 {\n            return Err(Error::MessageTooShort);", "break"),
     ("msg_max_tags_raised", "C06", "src/message.rs", "2..=1024 => RtMessage::multi_tag_message(num_tags, bytes, &mut msg),\n            _ => Err(Error::InvalidNumTags(num_tags)),", "2..=1024 => RtMessage::multi_tag_message(num_tags, bytes, &mut msg),\n            _ => RtMessage::multi_tag_message(num_tags, bytes, &mut msg),", "break"),
     ("msg_display_depth_limit_removed", "C06", "src/message.rs", "if tag.is_nested() && indent_level < MAX_DISPLAY_NESTING =>", "if tag.is_nested() =>", "break"),
